@@ -2,6 +2,15 @@ use rsv::props;
 use rsv::runner::{install_panic_hook, Run, Tier};
 use serde_json::Value;
 
+/// in the child a panic must be loud and fatal
+fn install_panic_hook_child() {
+    let default = std::panic::take_hook();
+    std::panic::set_hook(Box::new(move |info| {
+        default(info);
+        std::process::exit(101);
+    }));
+}
+
 fn usage() -> ! {
     eprintln!("usage: rsv <property-id> [quick|thorough] [--replay <file>] | rsv list");
     std::process::exit(2)
@@ -11,6 +20,10 @@ fn main() {
     let args: Vec<String> = std::env::args().skip(1).collect();
     if args.is_empty() {
         usage();
+    }
+    if args[0] == "c16-child" {
+        install_panic_hook_child();
+        std::process::exit(rsv::props::c16::child_main());
     }
     if args[0] == "list" {
         for p in props::all() {
